@@ -170,6 +170,32 @@ CHECKS["C19"] = dict(
     design_ref="DESIGN.md §5 C19",
     note="Trusted: Coq kernel, Reals axioms, Classical_Prop.classic and functional extensionality (Coquelicot); hand-written model tied by harness/h_bh.cpp correspondence.",
     technique="Coq/Coquelicot proof over a hand-written spline model + bit-exact correspondence with the material class")
+CHECKS["C15"] = dict(
+    category="proof",
+    text=("Coq theorems over all edit histories (induction on the op list) about a model of the property lists, name->index "
+          "maps and per-entity (index,name) references: for the repaired code (current /repo) the saved meaning and the "
+          "analysis meaning equal the name-level association for every ordinary history and never re-target; for the former "
+          "code refutation witnesses (delete shifts indices, assign-before-define, stale maps, gate unsound after re-open) and "
+          "the no-delete fragment. The model variant the code follows is decided on every run: histories rendered as Lua, run "
+          "through the real femmcli, every saved file parsed independently and compared with the model's Save output (exhaustive "
+          "short words + random histories; gate/analysis probes)."),
+    design_ref="DESIGN.md §5 C15",
+    note="Trusted: Coq kernel (no axioms); hand-written model tied by femmcli correspondence; identity among properties sharing a name and geometry merging are outside the model.",
+    technique="Coq proof (refinement to a name-level association over all histories) + exhaustive/random femmcli history correspondence")
+CHECKS["C05"] = dict(
+    category="proof",
+    text=("33 Coq theorems over statement-by-statement models of FSolver::Static2D and Harmonic2D (linear materials, planar): "
+          "assembled residual rows are the sum of the local Galerkin equations of curl(nu curl A) = J + curl Hc on every mesh; "
+          "element matrix = P1 curl-curl matrix with the physically correct nu_x/nu_y pairing; current, magnet and mixed-boundary "
+          "terms; consistent eddy mass; circuit currents reproduced (Case 1) and the exact total for Case 0 (with a refutation "
+          "witness for a wound + solid parallel circuit); written per-block circuit data = what the right-hand side used; "
+          "prescribed-A rows via setvalue_equiv; lamination mixing formulas. The binary64 models reproduce the real assembled "
+          "matrices, right-hand sides, circuit results and label lines bit for bit; independent SI-unit numpy oracle on the "
+          ".ans written by the real fsolver. Partial: air-gap elements, nonlinear/Newton branch, axisymmetric files not "
+          "modelled; harmonic residual-row theorem at matrix-entry level; three recorded known findings (C05-1..3)."),
+    design_ref="DESIGN.md §5 C05",
+    note="Trusted: Coq kernel + Reals axioms + functional extensionality; hand-written models tied by harness/h_fsolver.cpp correspondence; libm values (magnet cos/sin, lamination tanh/exp) recomputed in the harness with the solver's expressions.",
+    technique="Coq proof over hand-written assembly models + bit-exact correspondence + independent Galerkin oracle")
 PENDING = {}
 def main():
     props = [json.loads(l) for l in open(os.path.join(V, "properties.jsonl"))]
